@@ -112,6 +112,27 @@ def cases(rng, tier, X):
         tk = 'tick %s %s %s wired' % ('-' if mnull else '0', '-' if enull else '1', '-' if tnull else '0')
         ops += [tk, 'clock 6500', tk, 'clock 70000', tk]
         out.append(('startup_m%d' % k, ops))
+    # universal traffic (1..3 interfaces, every frame type / sender / path) with faults injected at random points
+    for k in range(60 if tier == 'quick' else 6000):
+        u = F.universal(rng)
+        ops = []
+        for o in u:
+            if o.startswith('rx ') and rng.random() < 0.12:
+                r = rng.random()
+                if r < 0.35:
+                    ops.append('fault malloc=%s' % ','.join(str(x) for x in sorted(rng.sample(range(1, 12), rng.choice([1, 1, 2, 3])))))
+                elif r < 0.55:
+                    ops.append('fault send=%s' % ','.join(str(x) for x in sorted(rng.sample(range(1, 8), rng.choice([1, 2])))))
+                elif r < 0.65:
+                    ops.append(rng.choice(['fault mallocall', 'fault sendall']))
+                elif r < 0.8:
+                    ops.append('set %s getfail=%d' % (o.split()[1], rng.randrange(512)))
+                elif r < 0.9:
+                    ops.append('glob %s' % rng.choice(['icon=none', 'fname=none', 'icon=none fname=none hwid=-', 'icon=gen:300:1 fname=gen:40:2']))
+                else:
+                    ops.append('fault clear')
+            ops.append(o)
+        out.append(('uf%d' % k, ops))
     out.append(('ctor_all', ['fault mallocall', 'fsm new 0 map', 'fsm new 1 sess', 'fsm new 2 enum', 'tbl new 0', 'espinit', 'fault clear', 'fsm new 0 map', 'tick 0 - - none']))
     return out
 
